@@ -197,7 +197,7 @@ def fast_mds_rule(ck, prog):
     """For every Rescue hasher whose permutation multiplies by the MDS through winter_crypto::hash::mds (split into 32-bit limbs, real FFTs,
     Hadamard product, reduction of the 96-bit results), the result word i is congruent modulo p to sum_j MDS[i][j] * state[j] for ALL
     inputs — including the inputs for which the final 128->64 bit reduction carries, which no sampled test reaches."""
-    from ..linint import LinInterp, Undecided, IV, show_lin
+    from ..linint import LinInterp, Undecided, Mismatch, IV, show_lin
     n = 0
     for name, info in RESCUE.items():
         mod, p, w = info["mod"], info["p"], info["width"]
@@ -220,8 +220,18 @@ def fast_mds_rule(ck, prog):
             ins = [li.atom(f"in[{j}]", 0, 2**64 - 1) for j in range(w)]
             env0 = {"@state": [("adt", 0, [IV({a: 1}, 0, 2**64 - 1)]) for a in ins], 1: ("ref", "@state", ())}
             key = f"{name}:{tn.split('::')[-2]}"
+            rows = [{ins[j]: mds[i][j] % p for j in range(w) if mds[i][j] % p} for i in range(w)]
+            # every field element the function builds is the zero it initialises with or one of the rows of the product; anything else is
+            # reported at once (a wrong carry case makes every later iteration fork again, so waiting for the end would exhaust the budget)
+            li.on_residue = lambda cl, facts: (not cl) or any(cl == r_ or li.congruent(cl, r_, facts) for r_ in rows)
             try:
                 outs = li.run(fn, env0)
+            except Mismatch as e:
+                n += 1
+                ck.ob("FAST", key + ":equals-MDS-product", False,
+                      f"{name}: on some carry case {tn.split('::')[-1]} builds a field element that is neither zero nor congruent modulo p to a row "
+                      f"sum_j MDS[i][j]*state[j] of the product", loc=e.loc or fn.loc(), detail={"computed (mod p)": show_lin(e.lin)})
+                continue
             except Undecided as e:
                 ck.note(f"FAST {key}: not decided ({e}); the clause is not claimed for this function on this tree")
                 continue
